@@ -1,6 +1,9 @@
 package main
 
-import "fmt"
+import (
+	"bytes"
+	"fmt"
+)
 
 // ---------------- C07 ----------------
 func init() { runners["C07"] = runC07 }
@@ -96,6 +99,25 @@ func runC07(c *runCfg) error {
 		}
 		if p < 0 {
 			break
+		}
+	}
+	// names, portals and bound values are used again after kilobytes of other traffic on the connection (queries
+	// of 100..1500 bytes each, 2..40 KiB in total, with and without longer names): they still resolve to what was defined
+	{
+		fcfg := namesCfg()
+		fcfg.limit = 8192
+		for _, total := range []int{2000, 4000, 4096, 5000, 9000, 20000, 40000} {
+			for _, each := range []int{100, 1000, 1500} {
+				for _, nm := range [][]byte{[]byte("a"), []byte("portal_with_a_longer_name"), nil} {
+					msgs := [][]byte{mParse(nm, []byte("q2"), 0), mBind(nm, nm, nil, []bindP{{v: bytes.Repeat([]byte("v"), 40)}, {v: []byte("second")}}, nil), mSync()}
+					for sent := 0; sent < total; sent += each {
+						msgs = append(msgs, mQuery(append([]byte("q1 "), bytes.Repeat([]byte{byte('a' + sent/each%26)}, each)...)))
+					}
+					msgs = append(msgs, mDescribe('P', nm), mExecute(nm, 0), mDescribe('S', nm), mSync(), mBind([]byte("other"), nm, nil, nil, nil), mExecute([]byte("other"), 0), mSync())
+					emitSession(c, lockCase(id, "far", fcfg, stdStartup, msgs))
+					id++
+				}
+			}
 		}
 	}
 	// several connections deliberately using the same names, every interleaving of their messages sampled
